@@ -201,3 +201,173 @@ GENERATORS = {"C03": gen_C03}
 
 def gen_scenario(seed, profile):
     return GENERATORS[profile](seed)
+
+
+def gen_C05(seed):
+    r = sub(seed, "ops")
+    fams = r.choice([["explicit_adaptive"], ["explicit_adaptive"], ["explicit_adaptive", "richardson"], ["implicit_adaptive", "explicit_adaptive"]])
+    scn, direction = base_scenario(seed, "C05", fams, want={"exact"}, dtype=r.choice(["float64"] * 6 + ["float32", "longdouble"]))
+    s = scn["system"]
+    L = abs(s["tf"] - s["t0"])
+    e = r.uniform(-4.0, 0.5)
+    s["dt"] = float("%.4g" % (L * 10 ** e))
+    if r.random() < 0.15:
+        s["dt"] = round(L * r.uniform(1.1, 3.0), 4)
+    if r.random() < 0.3:
+        s["dt"] = -s["dt"]
+    scn["knobs"].pop("alloc_cap", None)
+    ops = [{"op": "integrate"}]
+    if r.random() < 0.25:
+        mid = round(s["t0"] + direction * L * r.uniform(0.2, 0.8), 6)
+        ops = [{"op": "integrate", "t": mid}, {"op": "integrate"}]
+    scn["ops"] = ops
+    if r.random() < 0.5:
+        # fault-injecting configuration: transient spikes force rejections
+        rf = sub(seed, "faults")
+        stages = {"RK1412Solver": 35, "RK108Solver": 17, "RK8713MSolver": 13, "RK45CKSolver": 6, "HeunEulerSolver": 2, "DOPRI45": 7}.get(s["method"], 8)
+        nf = rf.choice([1, 1, 1, 2, 3])
+        persistent = rf.random() < 0.3
+        opi = rf.randrange(len(ops))
+        k0 = rf.randrange(1, 12 * stages)
+        if persistent:
+            scn["knobs"]["retry_cap"] = rf.choice([2, 3, 5])
+            for j in range(0, stages * (scn["knobs"]["retry_cap"] + 2)):
+                scn["faults"].append({"op": opi, "seam": "rhs", "at": k0 + j, "kind": "spike", "amp": 1e3})
+        else:
+            for j in range(nf):
+                scn["faults"].append({"op": opi, "seam": "rhs", "at": k0 + j * rf.randrange(1, 3 * stages), "kind": "spike", "amp": rf.choice([1e1, 1e3, 1e6])})
+        seen = set()
+        scn["faults"] = [f for f in scn["faults"] if not (f["at"] in seen or seen.add(f["at"]))]
+    return scn
+
+
+GENERATORS["C05"] = gen_C05
+
+
+# ------------------------------------------------------------------------------------ events
+def osc_amplitude(prob, j):
+    m = len(prob["params"]["w"])
+    q, p = prob["y0"][j % m], prob["y0"][m + (j % m)]
+    return math.hypot(q, p)
+
+
+def gen_events(rng, scn, n, terminal_prob=0.0, scales=(1.0,), kinds=("state", "time", "dstate")):
+    """event descriptions with (mostly) guaranteed crossings inside the span."""
+    prob = scn["problem"]
+    s = scn["system"]
+    t0, tf = s["t0"], s["tf"]
+    N = 1
+    for d in prob["shape"]:
+        N *= d
+    evs = []
+    for _ in range(n):
+        kind = rng.choice(kinds)
+        comp = rng.randrange(N)
+        if kind == "time":
+            c = round(t0 + (tf - t0) * rng.uniform(0.08, 0.92), 5)
+        elif kind == "state":
+            if prob["family"] == "osc":
+                c = round(osc_amplitude(prob, comp) * rng.uniform(-0.85, 0.85), 4)
+            else:
+                c = round(prob["y0"][comp] + rng.uniform(-0.2, 0.2), 4)
+        else:
+            if prob["family"] == "osc":
+                m = len(prob["params"]["w"])
+                c = round(osc_amplitude(prob, comp) * prob["params"]["w"][comp % m] * s["constants"].get("k", 1.0) * rng.uniform(-0.8, 0.8), 4)
+            else:
+                c = round(rng.uniform(-0.3, 0.3), 4)
+        evs.append({"kind": kind, "comp": comp, "c": c, "scale": rng.choice(list(scales)), "direction": rng.choice([0, 0, 1, -1]),
+                    "terminal": bool(rng.random() < terminal_prob)})
+    return evs
+
+
+def gen_C20(seed):
+    r = sub(seed, "ops")
+    fams = r.choice([ALL_FAMS, CHEAP_FAMS, ["explicit_adaptive", "implicit_fixed", "implicit_adaptive"], ["splitting", "richardson", "explicit_fixed"]])
+    with_events = r.random() < 0.4
+    scn, direction = base_scenario(seed, "C20", fams, family="osc" if with_events and r.random() < 0.7 else None, max_steps=25)
+    s = scn["system"]
+    t0, tf = s["t0"], s["tf"]
+    L = abs(tf - t0)
+    if with_events:
+        scn["events"] = gen_events(r, scn, r.choice([1, 1, 2, 3]), terminal_prob=0.3)
+    nops = r.choice([1, 2, 2, 3, 4])
+    ops = []
+    cur = t0
+    for j in range(nops):
+        x = r.random()
+        if x < 0.12 and j > 0:
+            ops.append({"op": "reset"})
+            cur = t0
+            continue
+        if x < 0.2 and j > 0:
+            ops.append({"op": "set", "attr": r.choice(["rtol", "atol"]), "value": float("%.2e" % 10 ** r.uniform(-7, -3))})
+            continue
+        op = {"op": "integrate"}
+        if r.random() < 0.6 and abs(tf - cur) > 0.05 * L:
+            op["t"] = round(cur + (tf - cur) * r.uniform(0.2, 0.9), 6)
+            cur = op["t"]
+        else:
+            cur = tf
+        cbs = r.choice([[], ["probe"], ["plan"], ["probe", "plan"], ["plan", "probe"], ["probe", "probe2"]])
+        if cbs:
+            op["callbacks"] = cbs
+        if "plan" in cbs:
+            base = abs(s["dt"])
+            op["plan"] = [(None if r.random() < 0.3 else float("%.4g" % (base * r.uniform(0.3, 1.5)))) for _ in range(r.choice([1, 2, 4, 8]))]
+        if with_events and r.random() < 0.8:
+            op["events"] = sorted(r.sample(range(len(scn["events"])), r.randint(1, len(scn["events"]))))
+        ops.append(op)
+    if not any(o["op"] == "integrate" for o in ops):
+        ops.append({"op": "integrate"})
+    scn["ops"] = ops
+    # faults: at most a few, inside ops that do work
+    rf = sub(seed, "faults")
+    iops = [i for i, o in enumerate(ops) if o["op"] == "integrate"]
+    if rf.random() < 0.5:
+        for _ in range(rf.choice([1, 1, 1, 2])):
+            i = rf.choice(iops)
+            kind = rf.choice(["rhs_raise", "rhs_raise", "rhs_kbdint", "rhs_spike", "callback", "event", "solver_nonconv", "jac"])
+            if kind.startswith("rhs"):
+                scn["faults"].append({"op": i, "seam": "rhs", "at": rf.randrange(1, 120), "kind": kind.split("_")[1]})
+            elif kind == "callback" and ops[i].get("callbacks"):
+                scn["faults"].append({"op": i, "seam": "callback", "at": rf.randrange(1, 12), "kind": "raise"})
+            elif kind == "event" and ops[i].get("events"):
+                scn["faults"].append({"op": i, "seam": "event", "at": rf.randrange(1, 150), "kind": "raise"})
+            elif kind == "solver_nonconv" and is_implicit(s["method"]):
+                scn["faults"].append({"op": i, "seam": "solver", "at": rf.randrange(1, 12), "kind": "nonconv"})
+            elif kind == "jac" and s["jac"] != "none":
+                scn["faults"].append({"op": i, "seam": "jac", "at": rf.randrange(1, 4), "kind": "raise"})
+    return scn
+
+
+GENERATORS["C20"] = gen_C20
+
+
+def gen_C02_base(seed):
+    """base scenario for C02: implicit methods (solver faults are enumerated on top of it) or explicit/splitting methods (step formula)."""
+    r = sub(seed, "ops")
+    x = r.random()
+    if x < 0.55:
+        fams = ["implicit_fixed", "implicit_fixed", "implicit_adaptive"]
+    else:
+        fams = ["explicit_fixed", "explicit_adaptive", "splitting"]
+    dtype = r.choice(["float64"] * 5 + ["longdouble", "longdouble", "float32"])
+    scn, direction = base_scenario(seed, "C02", fams, dtype=dtype, max_steps=10)
+    s = scn["system"]
+    s["dense"] = False
+    L = abs(s["tf"] - s["t0"])
+    if scn["problem"]["family"] in ("linear",) and is_implicit(s["method"]) and r.random() < 0.3:
+        pass
+    scn["ops"] = [{"op": "integrate"}]
+    if r.random() < 0.3:
+        mid = round(s["t0"] + direction * L * r.uniform(0.2, 0.8), 6)
+        scn["ops"] = [{"op": "integrate", "t": mid}, {"op": "integrate"}]
+    if is_implicit(s["method"]) and r.random() < 0.5:
+        scn["knobs"]["newton_cap"] = r.choice([1, 2, 4])
+    if is_implicit(s["method"]) and r.random() < 0.3:
+        scn["knobs"]["retry_cap"] = r.choice([2, 3, 5])
+    return scn
+
+
+GENERATORS["C02"] = gen_C02_base
